@@ -44,6 +44,7 @@ def register_conf(add0, CONF):
     api('bn_bits', UTIL, 'bn_st *a;', 'bn_bits(a)', S1, ['bn_is_zero', 'util_bits_dig'])
     if CONF == 'w8':
         api('util_bits_dig', 'src/relic_util.c', 'dig_t a;', 'util_bits_dig(a)', S1, [], sources_extra=['src/arch/relic_arch_none.c'])
+    api('bn_set_bit', UTIL, 'bn_st *a; uint_t bit; int v;', 'bn_set_bit(a, bit, v)', S1, ['bn_grow', 'bn_trim', 'dv_zero'])
     api('bn_get_bit', UTIL, 'bn_st *a; uint_t bit;', 'bn_get_bit(a, bit)', S1, ['bn_bits'])
     # comparison
     api('bn_cmp_abs', CMP, 'bn_st *a, *b;', 'bn_cmp_abs(a, b)', [('none', None), ], ['bn_is_zero', 'dv_cmp'])
